@@ -104,7 +104,7 @@ package router
 //@   ensures [others-kept] forall i wamp.ID :: i != sub.id ==> ((i in b.subscriptions) == old(i in b.subscriptions) && b.subscriptions[i] == old(b.subscriptions[i]))
 
 //@ func newSubscription
-//@   props C01
+//@   props C01 C04
 //@   modifies nothing
 //@   ensures [fresh] result != nil && fresh(result) && result.subscribers != nil && fresh(result.subscribers)
 //@   ensures [fields] result.id == id && result.topic == topic && result.match == match
